@@ -5,6 +5,8 @@ import json
 CLAIMED = {
  "C02": ("model_checking", "6 C02", "TTLV.tla: independent definition of the wire format (encoder with two's complement on byte sequences + recursive-descent recogniser), lemmas checked by TLC on a bounded tree universe; KmipEnvelope.tla: response envelope grammar with tag numbers from the KMIP tag table; bound to the code by TLC validating bytes the implementation emits: primitive encodings at boundary values against Enc of the intended value, every encoded request and every response a real KmipSession sends over random histories in all versions (all error classes, undecodable frames, unauthenticated connections, size limits)",
          "explicit TLA+ byte-level specification + TLC validation of emitted byte strings (trace validation at the byte level)"),
+ "C19": ("model_checking", "6 C19", "Client.tla: the decision table client operation x response class x delivery with the prescribed outcome, enumerated completely by TLC; every row executed on a real ProxyKmipClient (KMIP 1.2 and 2.0) over a scripted socket whose responses are built with the real encoder and delivered in the prescribed pieces; every client method (with and without identifier) called against a real in-process KmipSession+KmipEngine under all six versions: the server must decode what the client emits",
+         "TLA+ exhaustive decision-table enumeration + one real client call per TLC row; client->server decodability sweep"),
  "C20": ("exploration", "6 C20", "canary histories (key material, secret data, credentials, plaintext, derivation inputs) against a real session+engine and a real client configured from a file: random requests of every operation in every version, a directed sweep of every cryptographic refusal path on usable keys, damaged frames, unauthenticated connections; every log record (formatted, incl. exception text) and result message searched for each canary in 10 encodings; the invariant and its positive control (canary visible at DEBUG) are stated in TraceC20.tla and evaluated by TLC on every record. TLA+ contributes the invariant and the history space; the taint decision itself is substring search in the harness",
          "canary taint search over recorded log/message traces; invariant + positive control evaluated by TLC (TraceC20.tla)"),
  "C03": ("model_checking", "4.2, 6 C03", "TLC: decision lemma ImplAllowed=>Granted over the full product + all MC_C03 histories; every model transition replayed on the real engine; random multi-client histories and a denied-vs-nonexistent differential probe, all validated against KmipEngine/KmipProps by TLC (TraceEngine)",
@@ -40,7 +42,6 @@ NOT_YET = {
  "C01": "check not built yet in this round (TTLV.tla / KmipSchema.tla planned, DESIGN 6 C01)",
  "C05": "check not built yet in this round",
  "C06": "check not built yet in this round",
- "C19": "check not built yet in this round",
 }
 NOTE = ("Trusted base: TLC 1.8; the projection harness/absmap.py (abstract<->KMIP objects, SQLite->abstract store via stdlib sqlite3); "
         "the logical clock patched into kmip.services.server.engine; requests travel through the real TTLV encoder and decoder. "
